@@ -26,15 +26,15 @@ import selftest as st  # noqa: E402
 
 ALL = [f"C{i:02d}" for i in range(1, 21)]
 BY_FILE = [
-    (r"bellows/ash\.py", ["C01", "C02", "C03", "C04", "C05", "C09", "C10", "C11"]),
-    (r"bellows/uart\.py", ["C09", "C10", "C11"]),
-    (r"bellows/thread\.py", ["C20", "C11"]),
+    (r"bellows/ash\.py", ["C01", "C02", "C03", "C04", "C05", "C09", "C10", "C11", "C12", "C13"]),
+    (r"bellows/uart\.py", ["C01", "C09", "C10", "C11", "C12", "C13", "C20"]),
+    (r"bellows/thread\.py", ["C20", "C11", "C12", "C13"]),
     (r"bellows/multicast\.py", ["C15"]),
-    (r"bellows/ezsp/protocol\.py", ["C06", "C07", "C08", "C09", "C10", "C12", "C17", "C19"]),
-    (r"bellows/ezsp/__init__\.py", ["C06", "C07", "C08", "C09", "C10", "C12", "C14", "C15", "C16", "C17", "C19"]),
+    (r"bellows/ezsp/protocol\.py", ["C01", "C13", "C06", "C07", "C08", "C09", "C10", "C12", "C17", "C19"]),
+    (r"bellows/ezsp/__init__\.py", ["C01", "C13", "C06", "C07", "C08", "C09", "C10", "C12", "C14", "C15", "C16", "C17", "C19"]),
     (r"bellows/ezsp/v\d+/", ["C07", "C08", "C09", "C12", "C13", "C14", "C16", "C19"]),
     (r"bellows/ezsp/config\.py", ["C16", "C09"]),
-    (r"bellows/zigbee/", ["C12", "C13", "C14", "C15", "C16", "C17", "C19"]),
+    (r"bellows/zigbee/", ["C01", "C12", "C13", "C14", "C15", "C16", "C17", "C19"]),
     (r"bellows/types/", ["C03", "C07", "C08", "C13", "C14", "C18"]),
     (r"bellows/config/", ["C16", "C09"]),
     (r"bellows/exception\.py", ["C06", "C10", "C17"]),
